@@ -312,4 +312,133 @@ theorem gen_language (fx : Fixes) (U : List (List Glyph)) (tag : Tag) (dls : Lis
       split <;> rfl
     o := ho }
 
+
+theorem getLast_cons_getD {α : Type} (f f0 : α) (fl : List α) : (f :: fl).getLast?.getD f0 = fl.getLast?.getD f := by
+  cases fl with
+  | nil => rfl
+  | cons x xs =>
+    rw [List.getLast?_cons_cons]
+    cases hq : (x :: xs).getLast? with
+    | none => simp at hq
+    | some y => rfl
+
+theorem blockFlag_shape (f : Flag) (fl : List Flag) (rs : List Rule) :
+    Src.blockFlag f (fl.map BStmt.flag ++ rs.map BStmt.rule) = fl.getLast?.getD f := by
+  induction fl generalizing f with
+  | nil => cases rs <;> simp [Src.blockFlag]
+  | cons f' fl ih => simp only [List.map_cons, List.cons_append, Src.blockFlag, ih, getLast_cons_getD]
+
+theorem blockFlagAfter_rules (f : Flag) (rs : List Rule) : Src.blockFlagAfter f (rs.map BStmt.rule) = f := by
+  induction rs with
+  | nil => rfl
+  | cons r rs ih => simpa [Src.blockFlagAfter] using ih
+
+theorem blockFlagAfter_shape (f : Flag) (fl : List Flag) (rs : List Rule) :
+    Src.blockFlagAfter f (fl.map BStmt.flag ++ rs.map BStmt.rule) = fl.getLast?.getD f := by
+  induction fl generalizing f with
+  | nil => simpa using blockFlagAfter_rules f rs
+  | cons f' fl ih => simp only [List.map_cons, List.cons_append, Src.blockFlagAfter, ih, getLast_cons_getD]
+
+theorem blockRules_shape (fl : List Flag) (rs : List Rule) :
+    Src.blockRules (fl.map BStmt.flag ++ rs.map BStmt.rule) = rs := by
+  induction fl with
+  | nil =>
+    induction rs with
+    | nil => rfl
+    | cons r rs ih => simpa [Src.blockRules] using ih
+  | cons f' fl ih => simpa [Src.blockRules] using ih
+
+theorem getLast_getD_mem {α : Type} (P : α → Prop) (f0 : α) (fl : List α) (h0 : P f0) (h : ∀ f ∈ fl, P f) :
+    P (fl.getLast?.getD f0) := by
+  cases hq : fl.getLast? with
+  | none => exact h0
+  | some y => exact h y (List.mem_of_getLast? hq)
+
+/-- `resolve_lookup_block` inside a feature block, in terms of its parts -/
+theorem lookupBlock_in_feature (fx : Fixes) (s : St) (n : String) (body : List BStmt) (a a4 : Active) (s4 : St) (id : LookupId)
+    (ha : s.finishAndAdd.active = some a)
+    (hfin : (body.foldl (St.blockStmt fx) { s.finishAndAdd with curName := some n }).finishCurrent = (s4, some id))
+    (hact4 : s4.active = some a4) (hid : id ≠ .empty) :
+    s.lookupBlock fx n body = { s4 with active := some (a4.addLookup id) } := by
+  have e1 : (if s.finishAndAdd.active.isNone then s.finishAndAdd.clearFlags else s.finishAndAdd) = s.finishAndAdd := by
+    rw [ha]; rfl
+  unfold St.lookupBlock
+  simp only []
+  rw [e1, hfin]
+  simp only [hact4, Option.isSome_some, ↓reduceIte, St.addToFeature]
+
+/-- a lookup block inside a feature block -/
+theorem gen_lookup (fx : Fixes) (U : List (List Glyph)) (tag : Tag) (dls : List Sys) (s0 : St)
+    (w : Src.Walk) (s : St) (evs : List Ev) (ids : List LookupId) (used : List String)
+    (n : String) (fl : List Flag) (rs : List Rule) (k : Kind)
+    (h : GenInv fx U tag dls s0 w s evs ids used)
+    (hfl : ∀ f ∈ fl, FlagNorm f ∧ ∀ c, f.attach = some c → sortedSet c ∈ U)
+    (hk : ∀ r ∈ rs, r.kind = k) (hne : rs ≠ []) (hname : n ∉ used) :
+    ∃ evs' ids', GenInv fx U tag dls s0 (Src.walkStmt w (.lookup n (fl.map .flag ++ rs.map .rule)))
+        (s.stmt fx (.lookup n (fl.map .flag ++ rs.map .rule))) evs' ids' (n :: used) ∧
+      sysEvs evs' = sysEvs evs := by
+  obtain ⟨evs1, ids1, h1, hsys1, hcur1, hwcur1, hctx1, hwreg1, hwflag1⟩ := gen_flush fx U tag dls s0 w s evs ids used h
+  obtain ⟨c1, c2, c3, c4, c5, c6, c7, c8⟩ := hctx1
+  have hact1 := h1.o.active
+  have hfc : FlagCode s.finishAndAdd.attachIds s.finishAndAdd.filterIds s.finishAndAdd.flag w.flag := by
+    have := h1.rel.1; rwa [hwflag1] at this
+  obtain ⟨s4, id, ls, hfin, hid, hcomp, hplace, hnamed, hcur4, hcn4, hfc4, hidsInv4, hattU4, ⟨a, ha⟩, ⟨ff, hff⟩, hls4, hact4, hsc4, hfe4⟩ :=
+    block_core fx U n fl rs k hfl hk hne { s.finishAndAdd with curName := some n } w.flag hcur1 rfl h1.o.idsInv h1.o.attachU hfc
+  simp only at hid hplace hnamed ha hff hls4 hact4 hsc4 hfe4
+  have hidne : id ≠ .empty := by rw [hid]; split <;> simp
+  have hstate : s.stmt fx (.lookup n (fl.map .flag ++ rs.map .rule)) = { s4 with active := addIdToActive s4.active id } := by
+    simp only [St.stmt]
+    rw [lookupBlock_in_feature fx s n _ _ _ s4 id hact1 hfin (hact4.trans hact1) hidne]
+    simp only [addIdToActive, hact4, hact1, Option.map_some]
+  have hwalk : Src.walkStmt w (.lookup n (fl.map .flag ++ rs.map .rule)) =
+      { w.flush with out := w.flush.out ++ [(w.flush.reg, .defn ⟨some n, fl.getLast?.getD w.flag, rs⟩)],
+                     flag := fl.getLast?.getD w.flag } := by
+    simp only [Src.walkStmt, blockFlag_shape, blockFlagAfter_shape, blockRules_shape, hwflag1]
+  rw [hstate, hwalk]
+  refine ⟨evs1 ++ [.item id], ids1 ++ [id], ?_, by rw [sysEvs_snoc_item, hsys1]⟩
+  have hposlen : 0 < ls.length := List.length_pos_iff.mpr (compiledRun_ls_ne hcomp)
+  have hgrew : Grew s.finishAndAdd { s4 with active := addIdToActive s4.active id } := by
+    by_cases hpos : k.isPos = true
+    · simp only [hpos, ↓reduceIte] at hplace
+      exact ⟨⟨[], by simp [hplace.2]⟩, ⟨ls, hplace.1⟩, ⟨a, ha⟩, ⟨ff, hff⟩⟩
+    · simp only [hpos, Bool.false_eq_true, ↓reduceIte] at hplace
+      exact ⟨⟨ls, hplace.1⟩, ⟨[], by simp [hplace.2]⟩, ⟨a, ha⟩, ⟨ff, hff⟩⟩
+  have ho := h1.o.named (s' := { s4 with active := addIdToActive s4.active id }) n (fl.getLast?.getD w.flag) rs id ls hname hgrew
+    hnamed (by simp only [hact4]) hcomp
+    (by
+      by_cases hpos : k.isPos = true
+      · simp only [hpos, ↓reduceIte] at hplace hid
+        rw [hid]; exact ⟨s.finishAndAdd.gpos, [], by simp [hplace.1], rfl⟩
+      · simp only [hpos, Bool.false_eq_true, ↓reduceIte] at hplace hid
+        rw [hid]; exact ⟨s.finishAndAdd.gsub, [], by simp [hplace.1], rfl⟩)
+    (by
+      by_cases hpos : k.isPos = true
+      · simp only [hpos, ↓reduceIte] at hplace hid
+        rw [hid]; simp only [idBelow, hplace.1, List.length_append]; omega
+      · simp only [hpos, Bool.false_eq_true, ↓reduceIte] at hplace hid
+        rw [hid]; simp only [idBelow, hplace.1, List.length_append]; omega)
+    (by rw [hid]; split <;> simp [idBelow])
+    (by
+      intro x hx
+      rw [hid]
+      split <;> cases x <;> simp_all [idLt, idBelow])
+    hcn4 hls4 hfe4 hidsInv4 hattU4
+  exact {
+    rel := by
+      refine ⟨hfc4, ?_⟩
+      simp only [hwcur1]
+      exact hcur4
+    normFlag := getLast_getD_mem FlagNorm w.flag fl h.normFlag (fun f hf => (hfl f hf).1)
+    normCur := by intro reg f rules hh; rw [hwcur1] at hh; cases hh
+    reg := by
+      simp only [regAfter_append, regAfter]
+      exact h1.reg
+    curReg := by intro reg f rules hh; rw [hwcur1] at hh; cases hh
+    script := by
+      show s4.script.getD "DFLT" = regScript w.flush.reg
+      rw [hsc4]; exact h1.script
+    o := by
+      show OutInv fx U tag dls s0 (w.flush.out ++ [(w.flush.reg, .defn ⟨some n, fl.getLast?.getD w.flag, rs⟩)]) _ _ _ _
+      rw [h1.reg]; exact ho }
+
 end Fontc.FeaCompile
